@@ -67,7 +67,14 @@ class Square(nn.Module):
         return x * x
 
 
-ACTS = {"cube": Cube, "square": Square, "tanh": nn.Tanh, "sin": tp.models.Sinus}
+class Twice(nn.Module):
+    def forward(self, x):
+        return x + x
+
+
+ACTS = {"cube": Cube, "square": Square, "tanh": nn.Tanh, "sin": tp.models.Sinus,
+        # one activation PER hidden layer (the documented list form): which layer gets which one matters
+        "square+cube": lambda: [Square(), Cube()], "square+twice": lambda: [Square(), Twice()], "tanh+square": lambda: [nn.Tanh(), Square()]}
 
 X2 = tp.spaces.R2("x")
 XT = tp.spaces.R1("x") * tp.spaces.R1("t")
@@ -271,6 +278,50 @@ def supply_case(cfg, copied):
     return Case(cname, body, goals, family="supply/" + ("fast" if copied else "plain"), params=dict(copied=copied, **cfg.params()))
 
 
+def resupply_case(cfg, copied):
+    """history: the SAME branch-input object is supplied again after the weights changed (an optimizer step /
+    load_state_dict) and after its buffer was refilled in place: the output is the inner product for the CURRENT
+    weights and the CURRENT content, i.e. what a fresh copy of the input gives"""
+    cname = "resupply/%s/%s" % (cfg.name, "fast" if copied else "plain")
+
+    def body(env):
+        sens = env.tensor("sens", (cfg.nsens, 1))
+        net, fs = build(env, cfg, copied, {}, sens=sens)
+        x = env.tensor("x", (cfg.nloc, cfg.X.dim))
+        tin = Points(x, cfg.X)
+        F = env.tensor("F", (cfg.nfun, cfg.nsens, cfg.fdim))
+        G_ = env.tensor("G", (cfg.nfun, cfg.nsens, cfg.fdim))
+        out = {}
+        out["first"] = (net(tin, F), net(tin, F.clone()))
+        with torch.no_grad():  # an optimizer step on the branch and trunk weights
+            for i, p in enumerate(net.parameters()):
+                p.add_(env.tensor("dw%d" % i, tuple(p.shape)))
+        out["after_weight_update"] = (net(tin, F), net(tin, F.clone()))
+        net.fix_branch_input(F)
+        out["fixed_again_same_object"] = (net(tin), net(tin, F.clone()))
+        with torch.no_grad():
+            F.copy_(G_)  # the user's buffer is refilled with the next batch of functions
+        out["after_buffer_refill"] = (net(tin, F), net(tin, G_.clone()))
+        PF = Points(F, cfg.F)
+        a = net(tin, PF)
+        with torch.no_grad():
+            for i, p in enumerate(net.parameters()):
+                p.sub_(env.tensor("dv%d" % i, tuple(p.shape)))
+        out["points_object_after_weight_update"] = (net(tin, PF), net(tin, Points(F.clone(), cfg.F)))
+        out["_a"] = (a, a)
+        return out
+
+    def goals(o, L, env):
+        g = G(L, env)
+        for k, (got, want) in o.items():
+            if k.startswith("_"):
+                continue
+            yield "rows[%s]" % k, shape_of(got) == shape_of(want)
+            yield from g.cells("same_as_fresh_copy[%s]" % k, got, want)
+
+    return Case(cname, body, goals, family="resupply/" + ("fast" if copied else "plain"), params=dict(copied=copied, **cfg.params()))
+
+
 # --------------------------------------------------------------------------
 # (c) fast path vs plain network
 # --------------------------------------------------------------------------
@@ -417,16 +468,18 @@ def cases(tier):
     cs = []
     quick = tier == "quick"
     if quick:
-        cfgs = [Cfg("cube"), Cfg("square", space="xt")]
+        cfgs = [Cfg("cube"), Cfg("square", space="xt"), Cfg("square+twice", hidden=(2, 2))]
     else:
         cfgs = [Cfg("cube"), Cfg("square", space="xt"), Cfg("tanh", hidden=(2, 2), odim=2, nloc=3),
                 Cfg("tanh", hidden=(2, 2), odim=1, nloc=3, space="xt", fdim=2), Cfg("sin", hidden=(2,), odim=2, nloc=2),
-                Cfg("square", hidden=(2, 2), odim=1, nloc=2), Cfg("tanh", hidden=(2,), odim=1, nloc=2, norm=True)]
+                Cfg("square", hidden=(2, 2), odim=1, nloc=2), Cfg("tanh", hidden=(2,), odim=1, nloc=2, norm=True),
+                Cfg("square+twice", hidden=(2, 2)), Cfg("square+cube", hidden=(1, 1)), Cfg("tanh+square", hidden=(2, 2), space="xt")]
     for cfg in cfgs:
         for copied in (True, False):
             for layout in ("2d", "3d") + (("own",) if not copied else ()):
                 cs.append(inner_case(cfg, copied, layout))
             cs.append(supply_case(cfg, copied))
+            cs.append(resupply_case(cfg, copied))
         for layout in ("coords", "leaf3d", "leaf2d"):
             cs.append(fast_case(cfg, layout))
     acts = ("cube",) if quick else ("cube", "tanh", "square")
